@@ -917,6 +917,23 @@ fn dump<'tcx>(tcx: TyCtxt<'tcx>) {
             let t = tcx.type_of(did).instantiate_identity().skip_norm_wip();
             o.push(("ty", cx.ty(t)));
         }
+        {
+            // generic parameter names in argument order (parents first)
+            let mut names: Vec<String> = Vec::new();
+            let g = tcx.generics_of(did);
+            let mut chain = vec![g];
+            let mut cur = g;
+            while let Some(p) = cur.parent {
+                cur = tcx.generics_of(p);
+                chain.push(cur);
+            }
+            for g in chain.iter().rev() {
+                for p in g.own_params.iter() {
+                    names.push(p.name.to_string());
+                }
+            }
+            o.push(("generics", J::A(names.into_iter().map(J::S).collect())));
+        }
         let mut bcx = BodyCx { cx: &mut cx, tr, owner: ldid, file, nodes: 0 };
         let ctxt = body.value.span.ctxt();
         let params: Vec<J> = body.params.iter().map(|p| bcx.pat(p.pat)).collect();
